@@ -100,7 +100,7 @@ def gen_c01(tier, seed):
     n = 240 if tier == "quick" else 3000
     for i in range(n):
         t = random_tree(rng, nmax=rng.choice([3, 6, 10, 14]), modes=rng.choice(["simple", "all", "nosuid"]),
-                        owners=rng.random() < 0.4)
+                        owners=rng.random() < 0.4, sibs=rng.choice([0.0, 0.0, 0.5]))
         o = rand_opts(rng)
         scens.append({"id": sid("C01", "r", i), "props": ["C01"], "mode": "clean", "tags": ["random"],
                       "steps": [{"op": "tree", "tree": t}, bk(o), {"op": "restore", "band": 0},
@@ -121,6 +121,11 @@ def gen_c01(tier, seed):
     for i, (kind, t, o) in enumerate(c01_value_trees(rng, tier)):
         scens.append({"id": sid("C01", kind, i), "props": ["C01"], "mode": "clean", "tags": [kind],
                       "steps": [{"op": "tree", "tree": t}, bk(o), {"op": "restore", "band": 0}]})
+    # contents beyond toy scale that are prefixes / duplicates of one another
+    for i in range(10 if tier == "quick" else 120):
+        t = cvlib.prefix_family_tree(rng, dirs=rng.choice([("",), ("", "d", "d.x")]))
+        scens.append({"id": sid("C01", "pfx", i), "props": ["C01"], "mode": "clean", "tags": ["prefix-family"],
+                      "steps": [{"op": "tree", "tree": t}, bk(rng.choice(BIG_OPTS)), {"op": "restore", "band": 0}, {"op": "list", "band": 0}]})
     return scens
 
 
@@ -140,7 +145,7 @@ def history_steps(rng, nsteps, interrupts=True, deletes=True, observe="restore_a
                   validate=True, pre_epoch=False):
     """A random operation history: mutate / backup(opts) / interrupted backup / delete(subset) / gc,
     observing every surviving version after every step."""
-    t = random_tree(rng, nmax=nmax, depth=3, pre_epoch=pre_epoch, maxlen=9)
+    t = random_tree(rng, nmax=nmax, depth=3, pre_epoch=pre_epoch, maxlen=9, sibs=rng.choice([0.0, 0.0, 0.4]))
     steps = [{"op": "tree", "tree": t}]
     earlier = [t]
     nb = 0          # next band id (predicted; only used to pick delete sets)
@@ -182,6 +187,52 @@ def history_steps(rng, nsteps, interrupts=True, deletes=True, observe="restore_a
     return steps
 
 
+BIG_OPTS = [{"H": 1000, "M": 1000, "S": 1000}, {"H": 3, "M": 300, "S": 200}, {"H": 1000, "M": 128, "S": 100}, {"H": 2, "M": 1000, "S": 64}]
+
+
+def prefix_history(rng, nsteps=3, observe=None, deletes=True):
+    """A history over trees whose file contents are duplicates / prefixes / extensions of one another
+    at sizes of 40-260 bytes (cvlib.BASES), with settings that combine many of them into one block."""
+    dirs = rng.choice([("",), ("", "d"), ("", "d", "d.x")])
+    t = cvlib.prefix_family_tree(rng, dirs=dirs)
+    o = rng.choice(BIG_OPTS)
+    steps = [{"op": "tree", "tree": t}, bk(o)]
+    earlier = [t]
+    nb = 1
+    for i in range(nsteps):
+        t = [dict(n) for n in t]
+        files = [n for n in t if n["k"] == "File"]
+        for _ in range(rng.randrange(1, 3)):
+            how = rng.choice(["rewrite", "rewrite", "delete", "add"])
+            if how == "rewrite" and files:
+                f = rng.choice(files)
+                f["c"] = list(cvlib.prefix_content(rng))
+                f["mt"] = [f["mt"][0] + 1000 + i, 0]
+            elif how == "delete" and len(files) > 2:
+                f = rng.choice(files)
+                t.remove(f)
+                files.remove(f)
+            else:
+                extra = cvlib.prefix_family_tree(rng, nfiles=2, dirs=dirs)
+                have = {path_str(n["p"]) for n in t}
+                for n in extra:
+                    if n["k"] == "File" and path_str(n["p"]) not in have:
+                        n["mt"] = [1600005000 + i, 0]
+                        t.append(n)
+                        have.add(path_str(n["p"]))
+        t = cvlib.distinct_from_history(t, earlier)
+        earlier.append(t)
+        steps += [{"op": "tree", "tree": t}, bk(rng.choice([o, o, rng.choice(BIG_OPTS)]))]
+        nb += 1
+        if observe:
+            steps.append({"op": observe})
+        if deletes and rng.random() < 0.4 and nb >= 2:
+            steps.append({"op": "delete", "bands": [rng.randrange(0, nb - 1)], "dry": False})
+            if observe:
+                steps.append({"op": observe})
+    return steps
+
+
 @check("C02", "model_checking", "TLA+ spec + TLC (bounded histories) + trace validation of random operation histories on the real code")
 def gen_c02(tier, seed):
     rng = random.Random(seed * 1000 + 2)
@@ -190,6 +241,9 @@ def gen_c02(tier, seed):
     for i in range(n):
         steps = history_steps(rng, rng.choice([4, 6, 8, 12] if tier == "quick" else [6, 10, 16, 24]))
         scens.append({"id": sid("C02", "h", i), "props": ["C02"], "mode": "clean", "tags": ["history"], "steps": steps})
+    for i in range(8 if tier == "quick" else 100):
+        scens.append({"id": sid("C02", "pfx", i), "props": ["C02"], "mode": "clean", "tags": ["prefix-family"],
+                      "steps": prefix_history(rng, nsteps=rng.choice([2, 3]), observe="restore_all")})
     return scens
 
 
@@ -233,6 +287,11 @@ def gen_c14(tier, seed):
             t2 = mut(rng, t, maxlen=9)
             steps += [{"op": "tree", "tree": t2}, bk(o), {"op": "tree", "tree": t}, bk(o)]
         scens.append({"id": sid("C14", "u", i), "props": ["C14"], "mode": "clean", "tags": ["unchanged"], "steps": steps})
+    for i in range(8 if tier == "quick" else 100):
+        t = cvlib.prefix_family_tree(rng, dirs=rng.choice([("",), ("", "d", "d.x")]))
+        o = rng.choice(BIG_OPTS)
+        scens.append({"id": sid("C14", "pfx", i), "props": ["C14"], "mode": "clean", "tags": ["unchanged", "prefix-family"],
+                      "steps": [{"op": "tree", "tree": t}, bk(o), bk(o)] + prefix_history(rng, nsteps=2, deletes=False)[2:] + [bk(o)]})
     m = 16 if tier == "quick" else 200
     for i in range(m):
         # resume: every crash point of an interrupted run, followed by a backup of the same source
@@ -688,6 +747,38 @@ def gen_c12(tier, seed):
             for d in dirs[:3]:
                 steps.append({"op": "restore", "band": 1, "subtree": d})
         scens.append({"id": sid("C12", "sub", i), "props": ["C12"], "mode": "clean", "tags": ["subtree"], "steps": steps})
+    # subtree selection on interrupted (stitched) versions in which something under S was deleted,
+    # renamed or replaced since the older version: every kill point of the second backup (sampled in
+    # quick), each followed by listing and restoring S and its neighbours
+    for i in range(24 if tier == "quick" else 250):
+        t = c12_tree(rng)
+        dirs = [nd for nd in t if nd["p"] and nd["k"] == "Dir"]
+        if not dirs:
+            t.append(node("/a", "Dir"))
+            dirs = [t[-1]]
+        # make sure S has several children
+        S = rng.choice(dirs)
+        have = {path_str(nd["p"]) for nd in t}
+        for nm in rng.sample(["a", "k", "zz", "é", "m.x"], 3):
+            q = path_str(S["p"]) + "/" + nm
+            if q not in have:
+                have.add(q)
+                t.append(node(q, "File", cvlib.rand_content(rng, 4), mt=(1600000300, 0)))
+        o = {"H": rng.choice([1, 2, 3]), "M": rng.choice([2, 1000]), "S": rng.choice([1, 1000])}
+        t2 = [dict(nd) for nd in t]
+        kids = sorted((nd for nd in t2 if len(nd["p"]) == len(S["p"]) + 1 and nd["p"][:len(S["p"])] == S["p"]), key=lambda nd: bytes(nd["p"][-1]))
+        victim = rng.choice([kids[-1], kids[-1], kids[0], rng.choice(kids)])
+        t2 = [nd for nd in t2 if nd["p"][:len(victim["p"])] != victim["p"]]
+        if rng.random() < 0.5:
+            t2 = mut(rng, t2, names=["a", "ab", "é", "éa", "日"], maxlen=5, nmut=1)
+        Sp = path_str(S["p"])
+        others = [path_str(nd["p"]) for nd in dirs if nd is not S][:2]
+        then = [{"op": "list", "band": 1}, {"op": "list", "band": 1, "subtree": Sp}, {"op": "restore", "band": 1, "subtree": Sp}]
+        for x in others:
+            then.append({"op": "list", "band": 1, "subtree": x})
+        steps = [{"op": "tree", "tree": t}, bk(o), {"op": "tree", "tree": t2},
+                 {"op": "sweep", "base": bk(o), "mode": "crash", "sample": 0 if tier != "quick" else 10, "seed": seed * 100 + i, "then": then}]
+        scens.append({"id": sid("C12", "stdel", i), "props": ["C12"], "mode": "clean", "tags": ["subtree", "stitched-deletion"], "steps": steps})
     return scens, mcs
 
 
@@ -708,7 +799,7 @@ def gen_c15(tier, seed):
     scens = []
     n = 250 if tier == "quick" else 3000
     for i in range(n):
-        t = random_tree(rng, nmax=rng.choice([6, 10, 16]), depth=4, names=EXCL_NAMES, pre_epoch=False, maxlen=4)
+        t = random_tree(rng, nmax=rng.choice([6, 10, 16]), depth=4, names=EXCL_NAMES, pre_epoch=False, maxlen=4, sibs=rng.choice([0.0, 0.0, 0.4]))
         pats = rng.sample(EXCL_PATTERNS, rng.randrange(1, 4))
         # a pattern naming an existing directory with children, anchored or not
         dirs = [path_str(nd["p"]) for nd in t if nd["p"] and nd["k"] == "Dir"]
@@ -721,6 +812,12 @@ def gen_c15(tier, seed):
                  bk(o), {"op": "list", "band": 1, "excl": pats}, {"op": "restore", "band": 1, "excl": pats}]
         if dirs and rng.random() < 0.3:
             steps.append({"op": "list", "band": 1, "excl": pats, "subtree": rng.choice(dirs)})
+        # the same full tree indexed with other hunk sizes: where an excluded directory's own entry and
+        # its children fall relative to hunk boundaries must not matter on the reading side
+        for j, H in enumerate(rng.sample([2, 3, 4, 5, 6, 8], 2 if tier == "quick" else 4)):
+            steps += [bk({"H": H, "M": 1000, "S": 1000}), {"op": "list", "band": 2 + j, "excl": pats}]
+            if j == 0:
+                steps.append({"op": "restore", "band": 2 + j, "excl": pats})
         scens.append({"id": sid("C15", "x", i), "props": ["C15"], "mode": "clean", "tags": ["exclude"], "steps": steps})
     return scens, mcs
 
@@ -784,6 +881,15 @@ def gen_c17(tier, seed):
             f3 = rng.choice(flavors)
             steps += [{"op": "new_archive", "rt": f3}] + hist + [{"op": "archive_digest"}]
         scens.append({"id": sid("C17", "r", i), "props": ["C17"], "mode": "clean", "tags": ["replay", f1, f2], "steps": steps})
+    # histories over contents that are prefixes / duplicates of one another at 40-260 bytes, combined
+    # into shared blocks: whatever the program derives from them must not depend on hash-map
+    # iteration order, addresses or the time
+    for i in range(40 if tier == "quick" else 400):
+        hist = prefix_history(rng, nsteps=rng.choice([1, 2, 3]))
+        f1, f2 = rng.sample(flavors, 2)
+        steps = [{"op": "new_archive", "rt": f1}] + hist + [{"op": "archive_digest"}, {"op": "new_archive", "rt": f2}] + hist + [{"op": "archive_digest"}]
+        steps += [{"op": "new_archive", "rt": f1}] + hist + [{"op": "archive_digest"}]
+        scens.append({"id": sid("C17", "pfx", i), "props": ["C17"], "mode": "clean", "tags": ["replay", "prefix-family", f1, f2], "steps": steps})
     return scens
 
 
@@ -798,7 +904,7 @@ def gen_c18(tier, seed):
     n = 250 if tier == "quick" else 3000
     for i in range(n):
         t = random_tree(rng, nmax=rng.choice([4, 8, 12]), depth=3, pre_epoch=False, maxlen=5, owners=rng.random() < 0.3,
-                        names=["a", "ab", "a.b", "b", "-", "é", "z", "d"])
+                        names=["a", "ab", "a.b", "b", "-", "é", "z", "d"], sibs=rng.choice([0.0, 0.5, 0.8]))
         o = rand_opts(rng)
         steps = [{"op": "tree", "tree": t}, bk(o), {"op": "diff", "band": -2, "include_unchanged": False},
                  {"op": "diff", "band": -2, "include_unchanged": True}]
@@ -810,6 +916,37 @@ def gen_c18(tier, seed):
                       {"op": "diff", "band": 0, "include_unchanged": False}, bk(o),
                       {"op": "diff", "band": -2, "include_unchanged": False}]
         scens.append({"id": sid("C18", "d", i), "props": ["C18"], "mode": "clean", "tags": ["diff"], "steps": steps})
+    # directed: sibling directories whose names extend one another with a byte below '/', each with
+    # entries at the same depth; single additions / removals at the edges of one of them
+    for i in range(40 if tier == "quick" else 500):
+        sibs = rng.sample(["a", "a.b", "a-", "a b", "ab", "a.d", "a+", "b"], rng.randrange(2, 5))
+        t = [node("/", "Dir"), node("/readme", "File", b"r")]
+        for sname in sibs:
+            t.append(node("/" + sname, "Dir"))
+            for child in rng.sample(["10-l", "m", "old", "x"], rng.randrange(1, 3)):
+                t.append(node(f"/{sname}/{child}", "File", cvlib.rand_content(rng, 4), mt=(1600000400, 0)))
+        o = rand_opts(rng)
+        steps = [{"op": "tree", "tree": t}, bk(o), {"op": "diff", "band": -2, "include_unchanged": False}]
+        t2 = t
+        for _ in range(rng.randrange(1, 4)):
+            t2 = [dict(n) for n in t2]
+            d = "/" + rng.choice(sibs)
+            kids = sorted((n for n in t2 if len(n["p"]) == 2 and path_str(n["p"][:1]) == d), key=lambda n: bytes(n["p"][-1]))
+            how = rng.choice(["add-last", "add-first", "del-last", "del-first", "touch-last"])
+            if how == "add-last":
+                q = d + "/zz-new"
+            elif how == "add-first":
+                q = d + "/!first"
+            if how.startswith("add"):
+                if not any(path_str(n["p"]) == q for n in t2):
+                    t2.append(node(q, "File", cvlib.rand_content(rng, 4), mt=(1600000500, 0)))
+            elif kids and how.startswith("del"):
+                t2.remove(kids[-1] if how == "del-last" else kids[0])
+            elif kids:
+                kids[-1]["mt"] = [kids[-1]["mt"][0] + 17, 3]
+            steps += [{"op": "tree", "tree": t2}, {"op": "diff", "band": -2, "include_unchanged": rng.random() < 0.3}, bk(o),
+                      {"op": "diff", "band": -2, "include_unchanged": False}]
+        scens.append({"id": sid("C18", "sib", i), "props": ["C18"], "mode": "clean", "tags": ["diff", "prefix-siblings"], "steps": steps})
     return scens, mcs
 
 
@@ -930,7 +1067,7 @@ NONTRIVIAL = {
     "C09": (lambda s: has_op(s, "damage_sweep") or sum(1 for st in s["steps"] if st["op"] == "validate") >= 2, "distinct archives with a damage sweep (every file x kind), or healthy histories validated at least twice"),
     "C10": (lambda s: has_op(s, "damage_sweep"), "distinct archives with a damage sweep (every file other than the header x kind + bit flips)"),
     "C11": (lambda s: has_op(s, "apath_table") or len(s["steps"][0].get("tree", [])) >= 4, "the comparator/validity table (all pairs of the exported strings) and distinct walked trees with >= 4 nodes"),
-    "C12": (lambda s: has_op(s, "apath_table") or sum(1 for st in s["steps"] if st.get("subtree")) >= 3, "the ancestor table and distinct (tree, settings) cases with >= 3 subtree selections"),
+    "C12": (lambda s: has_op(s, "apath_table") or has_op(s, "sweep") or sum(1 for st in s["steps"] if st.get("subtree")) >= 3, "the ancestor table and distinct (tree, settings) cases with >= 3 subtree selections, or kill-point sweeps of a second backup each followed by subtree selections on the stitched version"),
     "C13": (lambda s: has_op(s, "backup"), "distinct histories with at least one backup"),
     "C15": (lambda s: any(st.get("excl") for st in s["steps"]), "distinct (tree, pattern set) cases"),
     "C16": (lambda s: any(n["k"] == "Symlink" for st in s["steps"] if st["op"] == "tree" for n in st["tree"]), "distinct trees containing at least one symlink, restored beside watched sentinels"),
